@@ -7,7 +7,7 @@ case = {"trainer": "STDP"|"StableSTDP"|"TripletSTDP"|"StableTripletSTDP"|"MSTDP"
         "hp": {...trainer hyperparameters...}, "dt": float, "conn": "dense"|"direct"|"lateral"|"conv" (+ "conv": {height, width, channels,
         filters, kernel, stride, padding, dilation}; pre/post flattened row-major), "n_in": int, "n_out": int,
         "B": int, "kmax": int|None (max delay in steps; None = connection without delays), "delays": [[k...]...] (steps,
-        weight-shaped), "delayed": bool, "reduction": "sum"|"mean"|"amax"|None, "pre": [T][B][n_in] 0/1,
+        weight-shaped; fractional values = delays between two steps), "delayed": bool, "reduction": "sum"|"mean"|"amax"|None, "pre": [T][B][n_in] 0/1,
         "post": [T][B][n_out] 0/1, "signal": None | [T] floats | [T][B] floats, "scale": float,
         "clear_each": bool (apply + clear the update after every step instead of accumulating)}
 """
